@@ -16,6 +16,27 @@ def childrenWithDefaults (o : GObj) : List (PElem × GVal) :=
   if o.kind != .cfg then o.children
   else o.children ++ o.defaults.filter (fun d => !o.children.any (fun c => c.1 == d.1))
 
+/-- Children *and* default objects refer to earlier objects; argument names (including those
+    of defaulted parameters) are distinct per object. -/
+structure Heap.EqWF (h : Heap) : Prop where
+  ch : ∀ (i : Nat) (o : GObj), h[i]? = some o → ∀ pv ∈ childrenWithDefaults o,
+    ∀ j : Nat, pv.2 = GVal.ref j → j < i
+  keys : ∀ (i : Nat) (o : GObj), h[i]? = some o → ((childrenWithDefaults o).map (·.1)).Nodup
+  keys' : ∀ (i : Nat) (o : GObj), h[i]? = some o → (o.children.map (·.1)).Nodup
+  ch' : ∀ (i : Nat) (o : GObj), h[i]? = some o → ∀ pv ∈ o.children,
+    ∀ j : Nat, pv.2 = GVal.ref j → j < i
+
+def Heap.eqWFB (h : Heap) : Bool :=
+  h.zipIdx.all (fun (oi : GObj × Nat) =>
+    (childrenWithDefaults oi.1).all (fun pv => match pv.2 with
+      | GVal.ref j => decide (j < oi.2)
+      | GVal.atom _ => true) &&
+    oi.1.children.all (fun pv => match pv.2 with
+      | GVal.ref j => decide (j < oi.2)
+      | GVal.atom _ => true) &&
+    decide (((childrenWithDefaults oi.1).map (·.1)).Nodup) &&
+    decide ((oi.1.children.map (·.1)).Nodup))
+
 def lookupChild (ch : List (PElem × GVal)) (pe : PElem) : Option GVal :=
   (ch.find? (fun c => c.1 == pe)).map (·.2)
 
